@@ -17,6 +17,8 @@ for line in sec.splitlines():
 for f in sorted(glob.glob(f'/tmp/wt/prompt{prev}_C*.txt')):
     pid = re.search(r'_(C\d\d)\.txt', f).group(1)
     s = open(f).read()
+    if 'Other people have already produced' not in s:
+        continue
     a = s.index('Other people have already produced')
     b = s.index('Prefer parts of the property')
     lst = ''.join(f'  - {t}\n' for t in trig.get(pid, []))
